@@ -220,6 +220,9 @@ func runC02(c C02Case) (res c02result) {
 			if f.QoS != w.qos {
 				return c02result{Fail: fmt.Sprintf("%s: handed on at QoS %d, expected %d", where, f.QoS, w.qos)}
 			}
+			if f.Dup {
+				return c02result{Fail: fmt.Sprintf("%s: handed on with the DUP flag set although it is the broker's first delivery to the subscriber (the flag of the incoming PUBLISH was propagated)", where)}
+			}
 		}
 		if len(open) >= 2 {
 			cls["two-exchanges-open"] = true
